@@ -24,6 +24,18 @@ UNI = ru.UNI
 CAT = 'depccg/cat.py'
 
 
+def matcher_helpers(mod):
+    """-> (scan, scan_deep): the nested helpers of Unification.__call__, found by role (arity and recursion), not by name"""
+    call = mod.get('Unification.__call__')
+    from ..core import enclosing_function
+    nested = [n for n in ast.walk(call) if isinstance(n, ast.FunctionDef) and n is not call and enclosing_function(n) is call]
+    scan = [n for n in nested if len(n.args.args) == 3]
+    deep = [n for n in nested if len(n.args.args) == 4]
+    if len(scan) != 1 or len(deep) != 1:
+        raise AnalysisError('%s: cannot identify the structural scan (3 parameters) and the leaf scan (4 parameters) inside Unification.__call__' % UNI)
+    return scan[0], deep[0]
+
+
 def flat(t, op):
     if t[0] == 'bool' and t[1] == op:
         out = []
@@ -35,11 +47,11 @@ def flat(t, op):
 
 def r_scan(repo, rep, R='R6.3'):
     mod = repo.module(UNI)
-    scan = mod.get('Unification.__call__.scan')
+    scan, _deep = matcher_helpers(mod)
     s, t, res = [a.arg for a in scan.args.args][:3]
     S_, T_ = N(s), N(t)
-    w = '%s:%s Unification.__call__.scan' % (UNI, scan.lineno)
-    paths = SymExec(scan).run()
+    w = '%s:%s Unification.__call__.%s' % (UNI, scan.lineno, scan.name)
+    paths = SymExec(scan, init_env={scan.name: ('func', scan.name, id(scan))}).run()
     shared_fail = ff = fa = False
     detail_ff = ''
     for st, out in paths:
@@ -60,13 +72,12 @@ def r_scan(repo, rep, R='R6.3'):
                             show(('cmp', 'in', C('|'), ('tuple', (A(T_, 'slash'), A(S_, 'slash')))))}
                     slash_ok = bool(ors & eq) and bool(ors & wild) and len(ors) == 2
                 rec = st.ret
-                want = {show(('call', ('func', 'scan', id(scan)), (A(S_, 'left'), A(T_, 'left'), N(res)), ())),
-                        show(('call', ('func', 'scan', id(scan)), (A(S_, 'right'), A(T_, 'right'), N(res)), ()))}
-                got = {show(x) for x in flat(rec, 'and')} if rec else set()
-                # the recursive call resolves to the function itself by name
-                got = {g.replace('<scan %d>' % id(scan), 'scan') for g in got}
-                want2 = {'scan(%s.left, %s.left, %s)' % (s, t, res), 'scan(%s.right, %s.right, %s)' % (s, t, res)}
-                ff = slash_ok and (got == want or got == want2)
+                fself = ('func', scan.name, id(scan))
+                want = {('call', fself, (A(S_, 'left'), A(T_, 'left'), N(res)), ()), ('call', fself, (A(S_, 'right'), A(T_, 'right'), N(res)), ())}
+                want_n = {('call', N(scan.name), (A(S_, 'left'), A(T_, 'left'), N(res)), ()), ('call', N(scan.name), (A(S_, 'right'), A(T_, 'right'), N(res)), ())}
+                gots = set(flat(rec, 'and')) if rec else set()
+                got = sorted(show(x) for x in gots)
+                ff = slash_ok and gots in (want, want_n)
                 detail_ff = 'slash test %s, recursion %s' % ('ok' if slash_ok else 'NOT equal-or-wildcard', sorted(got))
         last = st.ret
         if last == C(False) and any(show(c) == show(A(S_, 'is_atomic')) and not pol for c, pol in flatten_all(conds)):
@@ -85,12 +96,12 @@ def r_scan(repo, rep, R='R6.3'):
 def r_scan_deep(repo, rep, R='R6.3'):
     """leaf features of a sub-category bound to a variable are numbered consecutively, left to right"""
     mod = repo.module(UNI)
-    sd = mod.get('Unification.__call__.scan_deep')
+    scan, sd = matcher_helpers(mod)
     ps = [a.arg for a in sd.args.args]
     if len(ps) != 4:
         raise AnalysisError('%s: scan_deep has parameters %s' % (UNI, ps))
     s, v, idx, res = ps
-    w = '%s:%s Unification.__call__.scan_deep' % (UNI, sd.lineno)
+    w = '%s:%s Unification.__call__.%s' % (UNI, sd.lineno, sd.name)
 
     def on_call(st, t, node):
         if t[1][0] == 'func' and t[1][1] == sd.name and len(t[2]) == 4:
@@ -119,10 +130,9 @@ def r_scan_deep(repo, rep, R='R6.3'):
     rep.check(leaf_ok and fun_ok, R, w, 'scan_deep:leaf-numbering',
               'every leaf gets the next free index and the right side continues where the left side stopped (%s)' % '; '.join(detail),
               'the leaves under a variable are not numbered consecutively left to right, so features at corresponding positions are not the ones compared: %s' % '; '.join(detail))
-    scan = mod.get('Unification.__call__.scan')
     starts = [n for n in ast.walk(scan) if isinstance(n, ast.Call) and src(n.func) == sd.name]
     ok = len(starts) == 1 and len(starts[0].args) == 4 and src(starts[0].args[2]) == '0'
-    rep.check(ok, R, '%s:%s Unification.__call__.scan' % (UNI, scan.lineno), 'scan_deep:start', 'numbering starts at 0 for each variable occurrence',
+    rep.check(ok, R, '%s:%s Unification.__call__.%s' % (UNI, scan.lineno, scan.name), 'scan_deep:start', 'numbering starts at 0 for each variable occurrence',
               'scan_deep is started with %s' % [src(a) for a in starts[0].args] if starts else 'no call')
 
 
